@@ -54,12 +54,35 @@ Row(shape, ks) ==
   [k |-> "flow", shape |-> shape, ks |-> ks, prog |-> prog, fns |-> Host,
    runs |-> RunSeq(prog, Objs(Fields(ks)), 1, <<>>), done |-> TRUE]
 
-Init == \E sh \in {"nest2", "seq2", "nest3", "nestseq"}, k1 \in 1..NKinds :
-          row = [k |-> "flow0", shape |-> sh, k1 |-> k1, done |-> FALSE]
+\* ---- tails: constructs whose LAST statement is a construct, with nothing after them ---------------------
+\* (the script runs off its end; the join points of the outer and the inner construct coincide with the end
+\* of the program)  o in 1..NTail, j the slot, LASTB the block placed last
+NTail == 7
+TailC(o, j, LASTB) ==
+  LET n == 100 * j  c == Ref(CName[j])  d == Ref(DName[j])  w == WName[j]  x == XName[j] IN
+  CASE o = 1 -> <<If(c, <<T(n + 1)>> \o LASTB)>>
+    [] o = 2 -> <<IfElse(c, <<T(n + 1)>>, <<T(n + 2)>> \o LASTB)>>
+    [] o = 3 -> <<IfElse(c, <<T(n + 1)>>, <<IfElse(d, <<T(n + 2)>> \o LASTB, <<T(n + 4)>>)>>)>>
+    [] o = 4 -> <<Switch(LitI(2), <<Case(<<LitI(1)>>, <<T(n + 1)>>), Default(<<T(n + 2)>> \o LASTB)>>)>>
+    [] o = 5 -> <<Switch(LitI(1), <<Case(<<LitI(1)>>, <<T(n + 1)>> \o LASTB), Default(<<T(n + 2)>>)>>)>>
+    [] o = 6 -> <<Asg(w, c), While(Ref(w), <<Asg(w, LitB(FALSE)), T(n + 1)>> \o LASTB)>>
+    [] o = 7 -> <<ForEach("", x, ArrLit(<<7>>), <<TE(Ref(x))>> \o LASTB)>>
+TailFields(o, j) == CASE o \in {1, 2, 6} -> <<CName[j]>> [] o = 3 -> <<CName[j], DName[j]>> [] OTHER -> <<>>
+TailProg(o1, o2, leaf) == <<T(1)>> \o TailC(o1, 1, TailC(o2, 2, IF leaf THEN <<T(9)>> ELSE <<>>))
+TailRow(o1, o2, leaf) ==
+  LET prog == TailProg(o1, o2, leaf) IN
+  [k |-> "flow", shape |-> "tail", ks |-> <<o1, o2>>, prog |-> prog, fns |-> Host,
+   runs |-> RunSeq(prog, Objs(TailFields(o1, 1) \o TailFields(o2, 2)), 1, <<>>), done |-> TRUE]
+
+Init == \/ \E sh \in {"nest2", "seq2", "nest3", "nestseq"}, k1 \in 1..NKinds :
+             row = [k |-> "flow0", shape |-> sh, k1 |-> k1, done |-> FALSE]
+        \/ \E o1 \in 1..NTail : row = [k |-> "tail0", shape |-> "tail", o1 |-> o1, done |-> FALSE]
 
 Next ==
   /\ ~row.done
-  /\ \/ /\ row.shape \in {"nest2", "seq2"}
+  /\ \/ /\ row.shape = "tail"
+        /\ \E o2 \in 1..NTail, leaf \in BOOLEAN : row' = TailRow(row.o1, o2, leaf)
+     \/ /\ row.shape \in {"nest2", "seq2"}
         /\ \E k2 \in 1..NKinds : row' = Row(row.shape, <<row.k1, k2>>)
      \/ /\ row.shape \in {"nest3", "nestseq"}
         /\ \E k2 \in 1..NKinds, k3 \in 1..NKinds :
